@@ -311,7 +311,9 @@ def run_world(rep, driver, model, r, tier, splice, hsize, n_eval, dist):
         rep.fail("C16: access log has connection ids more than once: %s" % dup[:5], {"kind": "failing-input", "io": io, "ids": dup[:20]})
     by_src = collections.defaultdict(list)
     for x in lines:
-        by_src[x["source"]].append(x)
+        # the harness' own start-up probes (before t_start) may have used a client port that a scenario gets again later
+        if x["state"] and x["state"][0]["time"] / 1000.0 >= t_start:
+            by_src[x["source"]].append(x)
     expected = collections.Counter(h["source"] for h in hs if "source" in h)
     for h in hs:
         n_eval[0] += 1
